@@ -23,8 +23,8 @@ TICK_S = 1.0  # one model tick = one second
 SHARDS = 8  # replay processes = validation JVMs per stage (quick: JVM start-up dominates; thorough: 16)
 
 
-def _ticks(ts, epoch) -> int:
-    x = (ts - epoch).total_seconds() / TICK_S
+def _ticks(ts, epoch, tick_s: float = TICK_S) -> int:
+    x = (ts - epoch).total_seconds() / tick_s
     return int(x) if float(x).is_integer() and abs(x) < 100000 else OFFGRID
 
 
@@ -303,27 +303,32 @@ def _cfgset(cfgs: list[dict]):
     return Raw("{" + ", ".join(tla_value(c) for c in cfgs) + "}")
 
 
+S1 = 1_000_000  # microseconds per model tick: whole seconds ...
+# ... and configurations whose resampling period is NOT a whole number of seconds: 0.75 s (3 ticks of 0.25 s),
+# 1.5 s (3 ticks of 0.5 s, and 6 ticks of 0.25 s = down-sampling a 0.25 s input)
+FRAC = [dict(P=3, age=1, L0=2, maxbuf=8, tick=250_000), dict(P=3, age=2, L0=2, maxbuf=8, tick=500_000), dict(P=6, age=1, L0=3, maxbuf=16, tick=250_000)]
+
 C08_SCOPES = {
     "quick": dict(
         history=dict(
-            cfgs=[dict(P=2, age=1, L0=2, maxbuf=8), dict(P=2, age=2, L0=3, maxbuf=8), dict(P=4, age=1, L0=2, maxbuf=3)],
+            cfgs=[dict(P=2, age=1, L0=2, maxbuf=8, tick=S1), dict(P=2, age=2, L0=3, maxbuf=8, tick=S1), dict(P=4, age=1, L0=2, maxbuf=3, tick=S1), FRAC[0]],
             consts=dict(DeltaSet={0, 1, 2, 3, 5}, Fut=2, MaxRecv=4, MaxInvalid=1, MaxTicks=3),
             limit=4000,
         ),
         sim=dict(
-            cfgs=[dict(P=2, age=1, L0=2, maxbuf=8), dict(P=2, age=2, L0=3, maxbuf=8), dict(P=4, age=1, L0=2, maxbuf=3), dict(P=4, age=2, L0=3, maxbuf=16), dict(P=2, age=1, L0=3, maxbuf=4)],
+            cfgs=[dict(P=2, age=1, L0=2, maxbuf=8, tick=S1), dict(P=2, age=2, L0=3, maxbuf=8, tick=S1), dict(P=4, age=1, L0=2, maxbuf=3, tick=S1), dict(P=4, age=2, L0=3, maxbuf=16, tick=S1), dict(P=2, age=1, L0=3, maxbuf=4, tick=S1)] + FRAC,
             consts=dict(DeltaSet={0, 1, 2, 3, 4, 5, 7, 9}, Fut=5, MaxRecv=10, MaxInvalid=3, MaxTicks=6),
             num=1600,
         ),
     ),
     "thorough": dict(
         history=dict(
-            cfgs=[dict(P=2, age=1, L0=2, maxbuf=8), dict(P=2, age=2, L0=3, maxbuf=8), dict(P=4, age=1, L0=2, maxbuf=3), dict(P=2, age=1, L0=3, maxbuf=4)],
+            cfgs=[dict(P=2, age=1, L0=2, maxbuf=8, tick=S1), dict(P=2, age=2, L0=3, maxbuf=8, tick=S1), dict(P=4, age=1, L0=2, maxbuf=3, tick=S1), dict(P=2, age=1, L0=3, maxbuf=4, tick=S1), FRAC[0]],
             consts=dict(DeltaSet={0, 1, 2, 3, 5}, Fut=2, MaxRecv=5, MaxInvalid=1, MaxTicks=4),
             limit=120000,
         ),
         sim=dict(
-            cfgs=[dict(P=2, age=1, L0=2, maxbuf=8), dict(P=2, age=2, L0=3, maxbuf=8), dict(P=4, age=1, L0=2, maxbuf=3), dict(P=4, age=2, L0=3, maxbuf=16), dict(P=2, age=1, L0=3, maxbuf=4), dict(P=4, age=3, L0=2, maxbuf=32)],
+            cfgs=[dict(P=2, age=1, L0=2, maxbuf=8, tick=S1), dict(P=2, age=2, L0=3, maxbuf=8, tick=S1), dict(P=4, age=1, L0=2, maxbuf=3, tick=S1), dict(P=4, age=2, L0=3, maxbuf=16, tick=S1), dict(P=2, age=1, L0=3, maxbuf=4, tick=S1), dict(P=4, age=3, L0=2, maxbuf=32, tick=S1)] + FRAC,
             consts=dict(DeltaSet={0, 1, 2, 3, 4, 5, 7, 9}, Fut=5, MaxRecv=14, MaxInvalid=4, MaxTicks=6),
             num=80000,
         ),
@@ -343,15 +348,16 @@ def replay_window(case: dict, cfg: dict) -> dict:
 
     steps = case["steps"]
     c = steps[0]
+    tick_s = c["tick"] / 1e6  # seconds per model tick; every timedelta is built from it
     calls: list[list[list[int]]] = []
     sunk: list[tuple[int, int]] = []
 
     def recording(samples, _conf, _props) -> float:
-        calls.append([[_ticks(x.timestamp, EPOCH), (int(x.value.base_value) if x.value is not None and not x.value.isnan() else -1)] for x in samples])
+        calls.append([[_ticks(x.timestamp, EPOCH, tick_s), (int(x.value.base_value) if x.value is not None and not x.value.isnan() else -1)] for x in samples])
         return float(calls[-1][-1][1]) if samples else -1.0
 
     async def sink(sample) -> None:
-        sunk.append((_ticks(sample.timestamp, EPOCH), NONE if sample.value is None else int(sample.value.base_value)))
+        sunk.append((_ticks(sample.timestamp, EPOCH, tick_s), NONE if sample.value is None else int(sample.value.base_value)))
 
     def us(td) -> int:
         return NONE if td is None else td // timedelta(microseconds=1)
@@ -359,7 +365,7 @@ def replay_window(case: dict, cfg: dict) -> dict:
     out = [c]
     with ManualLoop(start=0.0) as loop:
         conf = ResamplerConfig(
-            resampling_period=timedelta(seconds=c["P"] * TICK_S),
+            resampling_period=timedelta(microseconds=c["P"] * c["tick"]),
             max_data_age_in_periods=float(c["age"]),
             resampling_function=recording,
             initial_buffer_len=c["L0"],
@@ -376,19 +382,19 @@ def replay_window(case: dict, cfg: dict) -> dict:
 
         def props() -> dict:
             p = res.get_source_properties(source)
-            return dict(start=NONE if p.sampling_start is None else _ticks(p.sampling_start, EPOCH), received=p.received_samples, period=us(p.sampling_period))
+            return dict(start=NONE if p.sampling_start is None else _ticks(p.sampling_start, EPOCH, tick_s), received=p.received_samples, period=us(p.sampling_period))
 
         nid = 0
         for s in steps[1:]:
             if s["a"] == "recv":
                 nid += 1
                 val = {"valid": Quantity(float(nid)), "none": None, "nan": Quantity(float("nan"))}[s["kind"]]
-                loop.create_task(sender.send(Sample(EPOCH + timedelta(seconds=s["ts"] * TICK_S), val)))
+                loop.create_task(sender.send(Sample(EPOCH + timedelta(microseconds=s["ts"] * c["tick"]), val)))
                 loop.run_until_idle()
                 out.append(dict(s, obs=props()))
             elif s["a"] == "tick":
                 n_calls, n_sunk = len(calls), len(sunk)
-                loop.advance_to(s["T"] * TICK_S)
+                loop.advance_to(s["T"] * tick_s)
                 if task.done():
                     raise RuntimeError(f"resample() ended: {task.exception()!r}")
                 if len(sunk) != n_sunk + 1:
@@ -428,7 +434,7 @@ def _c08_stage(rep: Report, name: str, sc: dict, work: Path, mode: str) -> None:
     # non-vacuity: how many replayed behaviours reach the regimes the clauses are about
     ex = rep.extra.setdefault("behaviours_exercising", {})
     keys = ("estimator_ran", "buffer_resized", "upsampling_window", "buffer_evicted_samples", "future_sample_in_buffer_at_tick",
-            "invalid_sample_received", "tick_with_nothing_handed", "tick_with_samples_handed", "sample_stamped_exactly_T", "sample_stamped_exactly_window_start")
+            "fractional_period_estimator_ran", "fractional_period_buffer_resized", "invalid_sample_received", "tick_with_nothing_handed", "tick_with_samples_handed", "sample_stamped_exactly_T", "sample_stamped_exactly_window_start")
     cnt = dict.fromkeys(keys, 0)
     for _, line in cases:
         st = _parse_line(line)
@@ -436,6 +442,9 @@ def _c08_stage(rep: Report, name: str, sc: dict, work: Path, mode: str) -> None:
         ticks = [s for s in st if s["a"] == "tick"]
         recv_ts = [s["ts"] for s in st if s["a"] == "recv" and s["kind"] == "valid"]
         cnt["estimator_ran"] += any(s["est"] for s in ticks)
+        frac = (P * st[0]["tick"]) % 1_000_000 != 0  # the resampling period is not a whole number of seconds
+        cnt["fractional_period_estimator_ran"] += frac and any(s["est"] for s in ticks)
+        cnt["fractional_period_buffer_resized"] += frac and any(s["resized"] for s in ticks)
         cnt["buffer_resized"] += any(s["resized"] for s in ticks)
         cnt["upsampling_window"] += any(s["upsampling"] for s in ticks)
         cnt["buffer_evicted_samples"] += any(s["evicted"] > 0 for s in ticks)
@@ -506,7 +515,7 @@ def run(prop: str, tier: str) -> int:
             rep.notes.append(f"{rep.extra['disagreements_total']} records where the sinks' timestamps differ from the transcribed timeline (C07.Timeline, not a clause of C07)")
     elif prop == "C08":
         rep.assumptions = [
-            "timestamps on a grid of whole seconds, periods 2 s and 4 s, integer max_data_age_in_periods; the estimated input period is exact to the microsecond (timedelta rounding transcribed), float effects beyond that are not decided",
+            "timestamps on grids of 1 s, 0.5 s and 0.25 s, periods 0.75 s, 1.5 s, 2 s and 4 s, integer max_data_age_in_periods; the estimated input period is exact to the microsecond (timedelta rounding transcribed), float effects beyond that are not decided",
             "input timestamps are non-decreasing (the property's quantifier: time-ordered input series); one source per resampler",
             "future-stamped samples occupy buffer slots: 'the most recent ones that fit the configured buffer' is read as the last maxlen valid samples RECEIVED (maxlen as adapted by the code), not the last maxlen samples of the window",
             "the harness reads no private state: recording resampling_function through ResamplerConfig, sink samples, get_source_properties()",
